@@ -4,6 +4,7 @@
 
 mod hist;
 mod observe;
+mod sweep;
 mod ws;
 
 use serde_json::{Map, Value};
@@ -20,18 +21,23 @@ impl Engine for An {
     fn generate(&self, prop: &str, seed: u64) -> Value {
         match prop {
             "C08" | "C09" | "C10" => serde_json::to_value(hist::generate(prop, seed)).unwrap(),
+            "C11" => serde_json::to_value(sweep::c11_generate(seed)).unwrap(),
+            "C32" => serde_json::to_value(sweep::c32_generate(seed)).unwrap(),
             _ => Value::Null,
         }
     }
     fn run(&self, prop: &str, spec: &Value, verbose: bool) -> CaseReport {
         match prop {
             "C08" | "C09" | "C10" => hist::run(prop, spec, verbose),
+            "C11" => sweep::c11_run(spec, verbose),
+            "C32" => sweep::c32_run(spec, verbose),
             _ => CaseReport { error: Some(format!("unknown property {prop}")), ..Default::default() },
         }
     }
     fn shrink(&self, prop: &str, spec: &Value) -> Vec<Value> {
         match prop {
-            "C08" | "C09" | "C10" => hist::shrink(spec),
+            "C08" | "C09" | "C10" | "C11" => hist::shrink(spec),
+            "C32" => sweep::c32_shrink(spec),
             _ => vec![],
         }
     }
@@ -43,6 +49,8 @@ impl Engine for An {
             "C08" => "one evaluation = one generated workspace (2-7 interacting files) fully analysed and reindexed, then a history of unchanged re-submissions (single, batch in seeded order) and edit-then-restore pairs, with the full observation (diagnostics, per-token types and declarations, references, hover docs, type declarations, members, globals, module resolution) and every index container size compared with the pre-history state after every step; non-trivial = history non-empty and >=2 files; distinct = distinct digests of the observation sequence".into(),
             "C09" => "one evaluation = one generated workspace with a history of 3-24 updates / batches / removals (three removal paths) / config changes / reindexes, then reindex(), compared with a brand-new analysis of the surviving files (same order, same final config), with and without a reindex of the reference; non-trivial = history non-empty and >=2 files; distinct = distinct observation digests".into(),
             "C10" => "one evaluation = one generated workspace, optional edits, then removal of a seeded subset through the three removal paths; checked: no query result names a removed file, after reindex the observation equals a fresh analysis of the survivors, removing everything returns every index container to the empty-workspace baseline, 4 add+remove cycles hold no more state than 1; non-trivial = >=2 files and >=1 removal; distinct = distinct observation digests".into(),
+            "C11" => format!("one evaluation = one generated workspace (cross-file globals with conflicting assignments, partial classes, aliases, enums, requires, cycles) registered in one fixed order through the batch path, optionally followed by a short history, executed under {} owned hash seeds on fresh threads; all canonical observations must be identical; non-trivial = >=2 files; distinct = distinct observation digests", sweep::sweep_width()),
+            "C32" => "one evaluation = 1-3 generated configuration objects over the real key space (scalars and arrays, each key spelled flat or nested at random, occasionally a key that is both a value and a prefix) loaded in order through load_configs under 16 owned hash seeds; oracle 1: identical outcome (serialized Emmyrc or panic) under every seed; oracle 2: equals an independent flatten / later-wins / append-without-duplicates reference merge; non-trivial = >=2 files or >=2 keys; distinct = distinct outcome digests".to_string(),
             _ => String::new(),
         }
     }
